@@ -57,6 +57,10 @@ func TextConsumer() Consumer {
 		if data != nil && t.Kind() == reflect.Ptr {
 			v := reflect.Indirect(reflect.ValueOf(data))
 			if t.Elem().Kind() == reflect.String {
+				if !v.IsValid() {
+					return errors.New("nil pointer destination for TextConsumer")
+				}
+
 				v.SetString(string(b))
 				return nil
 			}
@@ -95,6 +99,10 @@ func TextProducer() Producer {
 		if str, ok := data.(fmt.Stringer); ok {
 			_, err := writer.Write([]byte(str.String()))
 			return err
+		}
+
+		if rv := reflect.ValueOf(data); rv.Kind() == reflect.Ptr && rv.IsNil() {
+			return errors.New("nil pointer data for TextProducer")
 		}
 
 		v := reflect.Indirect(reflect.ValueOf(data))
